@@ -112,6 +112,18 @@ ShapeStr(v) ==
     [] v.t = "S" -> "S." \o ShapeStr(v.m0) \o ":" \o DigitsOf(v.fixed, 1)
     [] v.t = "A" -> "A." \o ShapeStr(v.v)
 
+\* a container whose elements have different dofs, the first one not the average (size * dof(front) # dof)
+RECURSIVE Ragged(_)
+Ragged(v) ==
+  CASE v.t = "V" -> (Len(v.e) >= 2 /\ Len(v.e) * DofV(v.e[1]) # DofV(v)) \/ \E i \in 1..Len(v.e) : Ragged(v.e[i])
+    [] v.t = "W" -> Ragged(v.v)
+    [] v.t = "S" -> Ragged(v.m0)
+    [] v.t = "A" -> Ragged(v.v)
+    [] OTHER -> FALSE
+\* coverage / stratum label of a value
+Shp(v) == ShapeStr(v) \o (IF Ragged(v) THEN "~ragged" ELSE "")
+DofFail(got, v) == F1("C07.dof", ToString(got), ToString(DofV(v)))
+
 \* largest squared rotation norm over all leaves touched by the tangent a (a has length DofV(v))
 RECURSIVE TreeTheta2(_, _)
 TreeTheta2(v, a) ==
@@ -134,7 +146,8 @@ SaneTan(v, a) == RLeq(VMaxAbs(a), Dec(1, 6)) /\ RLeq(TreeTheta2(v, a), Dec(1, 4)
 \* Precondition (checked by the caller): WellFormed(v), WellFormed(out), Len(a) = DofV(v).
 RECURSIVE RplusChk(_, _, _, _)
 RplusChk(cl, v, a, out) ==
-  IF v.t # out.t THEN F1(cl \o ".shape", out.t, v.t)
+  IF Len(a) # DofV(v) THEN DofFail(Len(a), v)
+  ELSE IF v.t # out.t THEN F1(cl \o ".shape", out.t, v.t)
   ELSE CASE v.t = "L" ->
          IF v.g # out.g THEN F1(cl \o ".shape", "group", "group")
          ELSE ElemChk(cl \o ".rplus", v.g, LC(out), MMul(GMat(v.g, LC(v)), XExp(v.g, a)), Tol9)
@@ -159,12 +172,13 @@ RplusChk(cl, v, a, out) ==
 \* full-space difference `wit.full` is verified the same way and d must be its free components.
 \* Precondition: WellFormed, SameShape(x, y), Len(d) = DofV(x).
 WitOk(x, w) ==
-  CASE x.t = "S" -> "full" \in DOMAIN w /\ Len(w.full) = DofV(x.m0) /\ FinV(w.full)
+  CASE x.t = "S" -> {"full", "in"} \subseteq DOMAIN w /\ Len(w.full) = DofV(x.m0) /\ FinV(w.full)
     [] x.t = "V" -> Len(w) = Len(x.e)
     [] OTHER -> TRUE
 RECURSIVE RminusChk(_, _, _, _, _)
 RminusChk(cl, x, y, d, w) ==
-  IF ~WitOk(x, w) THEN F1("TOOL.witness", "malformed", "")
+  IF Len(d) # DofV(x) THEN DofFail(Len(d), x)
+  ELSE IF ~WitOk(x, w) THEN F1("TOOL.witness", "malformed", "")
   ELSE CASE x.t = "L" ->
          IF ~SaneLeafTan(x.g, d) THEN Fail(cl \o ".rminus", VMaxAbs(d), Dec(1, 6))
          ELSE ElemChk(cl \o ".rminus", x.g, LC(x), MMul(GMat(x.g, LC(y)), XExp(x.g, d)), TolT(TanNearPi(x.g, d, Band)))
@@ -177,13 +191,15 @@ RminusChk(cl, x, y, d, w) ==
     [] x.t = "W" -> RminusChk("C07.container", x.v, y.v, d, w)
     [] x.t = "S" ->
          LET n == DofV(x.m0)  full == QV(w.full)
-         IN RminusChk("C07.sub.witness", x.m, y.m, full, 0)
+         IN RminusChk("C07.sub.witness", x.m, y.m, full, w.in)
             \o VecChk("C07.sub.report", d, RForce(Gather(full, FixedSet(x), n)), Tol9)
     [] x.t = "A" -> RminusChk(cl, x.v, y.v, d, w)
 
 \* axiom 1: d = rminus(rplus(v, a), v) must be a, on every leaf whose rotation parts are below pi
 RECURSIVE RT1Chk(_, _, _)
 RT1Chk(v, a, d) ==
+  IF Len(a) # DofV(v) \/ Len(d) # DofV(v) THEN <<>>      \* reported as C07.dof by the caller
+  ELSE
   CASE v.t = "L" -> IF TanBelowPi(v.g, a) THEN VecChk("C07.rt1", d, a, TolT(TanNearPi(v.g, a, Band))) ELSE <<>>
     [] v.t = "V" ->
          LET ds == ElemDofs(v)
@@ -202,7 +218,7 @@ OnSlice(full, F) ==
   \A i \in F : RLeq(RAbs(full[i + 1]), RMul(Dec(1, -10), RMax(R1, VMaxAbs(full))))
 RECURSIVE RT2Chk(_, _, _, _, _)
 RT2Chk(x, m2, d, q, w) ==
-  IF q.t # x.t THEN <<>>            \* already reported by RplusChk
+  IF q.t # x.t \/ Len(d) # DofV(x) THEN <<>>            \* already reported by RplusChk / as C07.dof
   ELSE CASE x.t = "L" ->
          IF q.g # x.g THEN <<>>
          ELSE ElemChk("C07.rt2", x.g, LC(q), GMat(x.g, LC(m2)), TolT(TanNearPi(x.g, d, Band)))
@@ -216,7 +232,7 @@ RT2Chk(x, m2, d, q, w) ==
     [] x.t = "W" -> IF q.alt # x.alt THEN <<>> ELSE RT2Chk(x.v, m2.v, d, q.v, w)
     [] x.t = "S" ->
          LET full == QV(w.full)
-         IN IF OnSlice(full, FixedSet(x)) THEN RT2Chk(x.m, m2.m, full, q.m, 0) ELSE <<>>
+         IN IF OnSlice(full, FixedSet(x)) THEN RT2Chk(x.m, m2.m, full, q.m, w.in) ELSE <<>>
     [] x.t = "A" -> RT2Chk(x.v, m2.v, d, q.v, w)
 RECURSIVE RT2Applies(_, _)
 RT2Applies(x, w) ==
@@ -238,7 +254,7 @@ ThetaStr(v, a) == ThetaStratum(TreeTheta2(v, a))
 TConstruct(e) ==
   LET v == e.val
   IN IF ~WellFormed(v) THEN Res(Tool("malformed"), heap, "-")
-     ELSE Res(IF InDomain(v) THEN <<>> ELSE Tool("domain"), Put(Id(e.dst), v), ShapeStr(v))
+     ELSE Res(IF InDomain(v) THEN <<>> ELSE Tool("domain"), Put(Id(e.dst), v), Shp(v))
 
 \* copy construction, copy assignment, cast to the same scalar: the new object is the source, bit for bit
 TCopy(e, clause) ==
@@ -247,43 +263,43 @@ TCopy(e, clause) ==
        IN IF id \notin DOMAIN e.obs \/ ~WellFormed(e.obs[id]) THEN Res(F1(clause, "no/ill-formed result", ""), heap, "-")
           ELSE LET got == e.obs[id]
                IN Res(IF SameV(got, want) THEN <<>> ELSE F1(clause, "differs from the source in m(), m0(), fixed_dims() or get<M>()", "bitwise equal"),
-                      Put(id, got), ShapeStr(want))
+                      Put(id, got), Shp(want))
 
 TRplus(e) ==
   IF ~Live(e.src) THEN Res(Tool("dead_src"), heap, "-")
   ELSE LET v == heap[Id(e.src)]  out == e.out
        IN IF ~FinV(e.a) \/ ~WellFormed(out) THEN Res(F1("C07.rt1.rplus", "non-finite or ill-formed", "finite"), heap, "-")
-          ELSE IF Len(e.a) # DofV(v) THEN Res(F1("C07.dof", ToString(Len(e.a)), ToString(DofV(v))), Put(Id(e.dst), out), "-")
+          ELSE IF Len(e.a) # DofV(v) THEN Res(DofFail(Len(e.a), v), Put(Id(e.dst), out), Shp(v))
           ELSE LET a == QV(e.a)
                IN IF ~SaneTan(v, a) THEN Res(Tool("insane_tangent"), Put(Id(e.dst), out), "-")
-                  ELSE Res(RplusChk("C07.rt1", v, a, out), Put(Id(e.dst), out), ShapeStr(v) \o "|" \o ThetaStr(v, a))
+                  ELSE Res(RplusChk("C07.rt1", v, a, out), Put(Id(e.dst), out), Shp(v) \o "|" \o ThetaStr(v, a))
 
 TRminus(e) ==
   IF ~Live(e.x) \/ ~Live(e.y) THEN Res(Tool("dead_src"), heap, "-")
   ELSE LET x == heap[Id(e.x)]  y == heap[Id(e.y)]
        IN IF ~SameShape(x, y) THEN Res(Tool("shape"), heap, "-")
           ELSE IF ~FinV(e.d) THEN Res(F1("C07.rt2.rminus", "non-finite", "finite"), heap, "-")
-          ELSE IF Len(e.d) # DofV(x) THEN Res(F1("C07.dof", ToString(Len(e.d)), ToString(DofV(x))), heap, "-")
+          ELSE IF Len(e.d) # DofV(x) THEN Res(DofFail(Len(e.d), x), heap, Shp(x))
           ELSE LET d == QV(e.d)
                IN Res(RminusChk("C07.rt2", x, y, d, e.wit)
                       \o (IF e.x = e.y THEN VecChk("C07.zero", d, VZero(Len(d)), Tol9) ELSE <<>>),
-                      heap, ShapeStr(x) \o (IF e.x = e.y THEN "|zero" ELSE "|diff"))
+                      heap, Shp(x) \o (IF e.x = e.y THEN "|zero" ELSE "|diff"))
 
 TMutate(e) ==
   IF ~Live(e.id) THEN Res(Tool("dead_src"), heap, "-")
   ELSE IF ~WellFormed(e.val) \/ ~SameShape(e.val, heap[Id(e.id)]) THEN Res(Tool("mutate_shape"), heap, "-")
-  ELSE Res(IF InDomain(e.val) THEN <<>> ELSE Tool("domain"), Put(Id(e.id), e.val), ShapeStr(e.val))
+  ELSE Res(IF InDomain(e.val) THEN <<>> ELSE Tool("domain"), Put(Id(e.id), e.val), Shp(e.val))
 
 TDof(e) ==
   IF ~Live(e.id) THEN Res(Tool("dead_src"), heap, "-")
   ELSE LET v == heap[Id(e.id)]
-       IN Res(IF e.dof = DofV(v) THEN <<>> ELSE F1("C07.dof", ToString(e.dof), ToString(DofV(v))), heap, ShapeStr(v))
+       IN Res(IF e.dof = DofV(v) THEN <<>> ELSE DofFail(e.dof, v), heap, Shp(v))
 
 TRt1(e) ==
   IF ~Live(e.x) THEN Res(Tool("dead_src"), heap, "-")
   ELSE LET v == heap[Id(e.x)]  p == e.p
        IN IF ~FinV(e.a) \/ ~FinV(e.d) \/ ~WellFormed(p) THEN Res(F1("C07.rt1", "non-finite or ill-formed", "finite"), heap, "-")
-          ELSE IF Len(e.a) # DofV(v) THEN Res(F1("C07.dof", ToString(Len(e.a)), ToString(DofV(v))), heap, "-")
+          ELSE IF Len(e.a) # DofV(v) THEN Res(DofFail(Len(e.a), v), heap, Shp(v))
           ELSE IF ~SaneTan(v, QV(e.a)) THEN Res(Tool("insane_tangent"), heap, "-")
           ELSE LET a == QV(e.a)  d == QV(e.d)
                    f1 == RplusChk("C07.rt1", v, a, p)
@@ -291,7 +307,7 @@ TRt1(e) ==
                    f3 == IF Len(d) # DofV(v) THEN F1("C07.dof", ToString(Len(d)), ToString(DofV(v)))
                          ELSE IF ~SameShape(p, v) THEN <<>>       \* reported by f1
                          ELSE RminusChk("C07.rt2", p, v, d, e.wit) \o RT1Chk(v, a, d)
-               IN Res(f1 \o f2 \o f3, heap, ShapeStr(v) \o "|" \o ThetaStr(v, a))
+               IN Res(f1 \o f2 \o f3, heap, Shp(v) \o "|" \o ThetaStr(v, a))
 
 TRt2(e) ==
   IF ~Live(e.x) THEN Res(Tool("dead_src"), heap, "-")
@@ -299,7 +315,9 @@ TRt2(e) ==
        IN IF ~WellFormed(m2) \/ ~SameShape(m2, x) THEN Res(Tool("shape"), heap, "-")
           ELSE IF e.op = "rt2" /\ (~Live(e.y) \/ ~SameV(m2, heap[Id(e.y)])) THEN Res(Tool("rt2_operand"), heap, "-")
           ELSE IF ~FinV(e.d) \/ ~WellFormed(q) THEN Res(F1("C07.rt2", "non-finite or ill-formed", "finite"), heap, "-")
-          ELSE IF Len(e.d) # DofV(x) THEN Res(F1("C07.dof", ToString(Len(e.d)), ToString(DofV(x))), heap, "-")
+          ELSE IF Len(e.d) # DofV(x) THEN Res(DofFail(Len(e.d), x), heap, Shp(x))
+          ELSE IF e.op = "rt2t" /\ ~FinV(e.b) THEN Res(Tool("insane_tangent"), heap, "-")
+          ELSE IF e.op = "rt2t" /\ Len(e.b) # DofV(x) THEN Res(DofFail(Len(e.b), x), heap, Shp(x))
           ELSE LET d == QV(e.d)
                    f0 == IF e.op = "rt2t" THEN RplusChk("C07.rt1", x, QV(e.b), m2) ELSE <<>>
                    f1 == RminusChk("C07.rt2", m2, x, d, e.wit)
@@ -307,7 +325,7 @@ TRt2(e) ==
                    f2 == IF sane THEN RplusChk("C07.rt1", x, d, q) ELSE <<>>
                    f3 == IF sane THEN RT2Chk(x, m2, d, q, e.wit) ELSE <<>>
                IN Res(f0 \o f1 \o f2 \o f3, heap,
-                      ShapeStr(x) \o (IF RT2Applies(x, e.wit) THEN "|applies" ELSE "|offslice"))
+                      Shp(x) \o (IF RT2Applies(x, e.wit) THEN "|applies" ELSE "|offslice"))
 
 TTwin(e) ==
   IF ~Live(e.x) \/ ~Live(e.y) THEN Res(Tool("dead_src"), heap, "-")
@@ -315,7 +333,7 @@ TTwin(e) ==
        IN IF ~SameV(x, y) THEN Res(<<>>, heap, "skipped")
           ELSE Res(IF WellFormed(e.px) /\ WellFormed(e.py) /\ SameV(e.px, e.py) /\ e.dx = e.dy /\ e.dofx = e.dofy
                    THEN <<>> ELSE F1("C07.copy.behave", "equal objects gave different rplus / rminus / dof", "bitwise equal"),
-                   heap, ShapeStr(x))
+                   heap, Shp(x))
 
 Step(e) ==
   CASE e.op = "begin" -> Res(<<>>, <<>>, "-")
